@@ -20,7 +20,8 @@ def rec_lattice(seed):
     from photutils.aperture import ApertureStats
     rng = random.Random(seed)
     h, w = rng.randint(2, 7), rng.randint(2, 8)
-    data = [[rng.randint(-6, 24) for _ in range(w)] for _ in range(h)]
+    lo_v, hi_v = (-6, 24) if rng.random() < 0.8 else (-22, 5)          # mostly negative: sky apertures on over-subtracted data
+    data = [[rng.randint(lo_v, hi_v) for _ in range(w)] for _ in range(h)]
     if rng.random() < 0.3:      # outliers for the sigma clip
         for _ in range(2):
             data[rng.randrange(h)][rng.randrange(w)] = rng.choice([30, -30, 28])
